@@ -305,7 +305,7 @@ def subs_var(fn, sub):
 def r4(ctx, vals):
     ctx.rule('C14.R4', 'RESULT_CONTINUE is announced (more = true) only when a complete further item is buffered: a plain '
              'byte, or a two-byte sequence that passed the completeness test; and *value is stored only while no value was '
-             'stored before in this call; a deferred two-byte sequence is left in the buffer as a whole', minimum=6, star=True)
+             'stored before in this call; a deferred two-byte sequence is left in the buffer as a whole', minimum=4, star=True)
     fb = ctx.fb
     fn = fb.fn(DEC)
     flag = vals.get('ENH_BYTE_FLAG')
